@@ -9,8 +9,9 @@ use crate::{ensure, fail, selftest};
 use ruzstd::verif_hooks as hk;
 use serde_json::{json, Value};
 
-const STAGES: [&str; 13] = [
+const STAGES: [&str; 14] = [
     "rle_mode_symbols",
+    "mode_transitions",
     "ll_codes",
     "ml_codes",
     "of_codes_dense",
@@ -223,6 +224,55 @@ fn rle_symbol_item(v: u64, ctx: &mut CaseCtx) -> CaseResult {
         ctx.feat_if(refused_as_symbol, "rle_symbol:illegal_refused_as_symbol");
     }
     ctx.nontrivial = sym + 4 > max && sym <= max.saturating_add(4);
+    Ok(())
+}
+
+/// Symbol_Compression_Modes across consecutive blocks: for one table every ordered triple of modes
+/// (Predefined, RLE, FSE_Compressed, Repeat) over three blocks, the other two tables predefined; one
+/// sequence per block so that every mode is representable. Repeat_Mode means "whatever the previous
+/// block with sequences used for this table" - also when that was the single RLE symbol.
+/// Item = ((((table * 4 + a) * 4 + b) * 4 + c) * 4 + variant).
+fn mode_transition_item(v: u64, ctx: &mut CaseCtx) -> CaseResult {
+    use crate::model::synth::*;
+    let variant = v % 4;
+    let c3 = (v / 4 % 4) as u8;
+    let b3 = (v / 16 % 4) as u8;
+    let a3 = (v / 64 % 4) as u8;
+    let table = (v / 256 % 3) as usize;
+    let mut blocks = vec![];
+    for (k, m) in [a3, b3, c3].into_iter().enumerate() {
+        let mut modes = [0u8; 3];
+        modes[table] = m;
+        // the table under test keeps its code from block to block (Repeat_Mode after RLE_Mode or
+        // after a one-symbol description is only valid for that very code); the other two tables
+        // change theirs, so that reading the wrong table, symbol or number of state bits shows
+        let kk = |t: usize| if t == table { variant as usize } else { k + variant as usize };
+        let ll = [3u32, 18, 70, 9][kk(0) % 4];
+        let ml = [5u32, 40, 11, 130][(kk(2) * 3) % 4];
+        let off = [OffSpec::Abs(2), OffSpec::Abs(9), OffSpec::Abs(33), OffSpec::Abs(20)][kk(1) % 4];
+        let literals: Vec<u8> = (0..ll + 4).map(|i| b"mode transitions! "[(i as usize + k * 5) % 18]).collect();
+        blocks.push(BlockSpec::Comp(CompSpec { literals, lit_mode: 0, lit_fmt: 0, huf_shape: 0, huf_fse: false, seqs: vec![SeqSpec { ll, ml, off }], count_fmt: 0, modes, tables: [(5 + (variant as u8 % 2), 3 + v as u32), (5, 11 + v as u32), (6, 7 + v as u32)] }));
+    }
+    let spec = FrameSpec { single_segment: false, window_desc: 0x10, fcs_bytes: 0, checksum: true, dict_id_bytes: 0, zero_dict_id: false, blocks };
+    let out = synth(&spec, None, false);
+    match crate::refz::decompress(&out.bytes, None, out.content.len() + 1) {
+        Ok(d) if d == out.content => {}
+        other => return Err(Failure::new("machinery", format!("the reference does not restore the synthesized mode-transition frame: {:?}", other.map(|d| d.len())))),
+    }
+    let mut dec = ruzstd::decoding::FrameDecoder::new();
+    let mut buf = vec![0u8; out.content.len() + 16];
+    match dec.decode_all(&out.bytes, &mut buf) {
+        Ok(n) => ensure!(buf[..n] == out.content[..], "mode_transition_wrong_data", "table {} modes {:?} over three blocks: decoded data differs from the content ({} vs {} bytes); frame {:02x?}", ["LL", "OF", "ML"][table], [a3, b3, c3], n, out.content.len(), out.bytes),
+        Err(e) => fail!("mode_transition_rejected", "table {} modes {:?} over three blocks: valid frame rejected: {e}; frame {:02x?}", ["LL", "OF", "ML"][table], [a3, b3, c3], out.bytes),
+    }
+    if let Ok(info) = frame::walk(&out.bytes, &Default::default()) {
+        let used: Vec<u8> = info.blocks.iter().filter_map(|b| b.seq.as_ref()).map(|q| q.modes[table]).collect();
+        ctx.feat_if(used.windows(2).any(|w| w == [1, 3]), "transition:rle_then_repeat");
+        ctx.feat_if(used.windows(2).any(|w| w == [2, 3]), "transition:fse_then_repeat");
+        ctx.feat_if(used.windows(2).any(|w| w == [0, 3]), "transition:predefined_then_repeat");
+        ctx.feat_if(used.windows(3).any(|w| w == [1, 3, 3]), "transition:rle_repeat_repeat");
+        ctx.nontrivial = used.contains(&3);
+    }
     Ok(())
 }
 
@@ -518,6 +568,7 @@ fn run_stage(eng: &Engine, stage: &str) -> bool {
         "seq_count_writer" => eng.run_enumerated(stage, "every sequence count 1..=98047 through the compressor's writer", 98_047, 2048, seq_count_writer_item),
         "seq_count_parser" => eng.run_enumerated(stage, "every 1/2/3-byte sequence-count prefix (2^24 patterns, redundant ones skipped)", 1 << 24, 1 << 14, seq_count_parser_item),
         "rle_mode_symbols" => eng.run_enumerated(stage, "RLE_Mode symbol byte: 3 tables x all 256 values", 3 * 256, 16, rle_symbol_item),
+        "mode_transitions" => eng.run_enumerated(stage, "3 tables x every ordered triple of the 4 modes over three consecutive blocks x 4 value variants", 3 * 64 * 4, 16, mode_transition_item),
         "block_headers" => eng.run_enumerated(stage, "all 2^24 block headers", 1 << 24, 1 << 14, block_header_item),
         "block_header_writer" => eng.run_enumerated(stage, "block header writer: last x type x size 0..=131072", 131_073 * 3 * 2, 1 << 13, block_header_writer_item),
         "frame_headers" => eng.run_enumerated(stage, "all 256x256 (descriptor, window byte) pairs x 4 field fill patterns", 65_536 * 4, 1 << 11, frame_header_item),
@@ -607,6 +658,7 @@ pub fn replay(eng: &Engine, stage: &str, case: &Value) -> CaseResult {
         "seq_count_writer" => seq_count_writer_item(i, &mut ctx),
         "seq_count_parser" => seq_count_parser_item(i, &mut ctx),
         "rle_mode_symbols" => rle_symbol_item(i, &mut ctx),
+        "mode_transitions" => mode_transition_item(i, &mut ctx),
         "block_headers" => block_header_item(i, &mut ctx),
         "block_header_writer" => block_header_writer_item(i, &mut ctx),
         "frame_headers" => frame_header_item(i, &mut ctx),
